@@ -359,7 +359,7 @@ class PreloadsSim(purity.PuritySim):
                 self.report(vk, tn, label, cond, compare.describe(expected)[:240], compare.describe(tree)[:240] + " -- " + bad)
         # ---- P2: bit-identical among clients of the same formalism sharing P (only while P's slots are fixed)
         if not self.harvested and not self.knobs.get("p_evict") and target in self.client_invs:
-            k2 = (tn, label)
+            k2 = (tn, label, self.world.specs.get(target, {}).get("dataset", {}).get("$node") == self.meta.get("DX"))
             dg = compare.digest(tree)
             if k2 in self.first:
                 self.stats["checked"] += 1
@@ -449,10 +449,15 @@ class PreloadsSim(purity.PuritySim):
                 ds_id = m["DI"] if (m.get("DI") and m["DI"] in env and rs.random() < 0.5) else m["D"]
                 if ds_id != m["D"]:
                     self.probe("client_uses_dataset_interface")
+                ref_ds = m["D"]
+                if m.get("DX") and m["DX"] in env and not self.harvested and rs.random() < 0.4:
+                    # same noise / PSF / mask / w-tilde objects, another image: its reference is the no-preload mapping inversion of THAT image
+                    ds_id = ref_ds = m["DX"]
+                    self.probe("client_uses_other_image_same_tables")
                 spec = {"id": nid, "kind": "inversion", "dataset": {"$node": ds_id}, "objs": [{"$node": o} for o in objs],
                         "settings": {"$node": m["st_w"] if use_w else m["st_m"]}, "preloads": {"$node": m["P"]}, "profile": bool(k.get("profile_on") and rs.random() < 0.5)}
                 refid = "ref_" + nid
-                rspec = {"id": refid, "kind": "inversion", "dataset": {"$node": m["D"]}, "objs": [{"$node": o} for o in objs], "settings": {"$node": m["st_m"]}}
+                rspec = {"id": refid, "kind": "inversion", "dataset": {"$node": ref_ds}, "objs": [{"$node": o} for o in objs], "settings": {"$node": m["st_m"]}}
                 self.ref_of[nid] = refid
                 self.apply({"op": "node", "client": client["name"], "node": spec, "ref_node": rspec})
                 if client["inv"] is not None:
@@ -462,7 +467,7 @@ class PreloadsSim(purity.PuritySim):
                 rs.shuffle(order)
                 order = order + [rs.choice(OUTPUTS) for _ in range(rs.randrange(0, 4))]
                 client["queue"] = [{"op": "read", "client": client["name"], "target": nid, "q": {"t": "prop", "name": n}} for n in order[: rs.randrange(4, len(order) + 1)]]
-                if rs.random() < 0.4:
+                if ref_ds == m["D"] and rs.random() < 0.4:
                     fid = self.new_node_id("fit")
                     fspec = {"id": fid, "kind": "fit_imaging", "dataset": {"$node": m["D"]}, "inversion": {"$node": nid}}
                     rfid = "ref_" + fid
@@ -560,7 +565,7 @@ RULE = (
 )
 STATE_MEASURE = "distinct (inversion type, frozenset of populated cached-property names) pairs observed at a read"
 EXPECTED_PROBES = ["p2_compared", "solver_failure_then_recovery", "harvest:set_curvature_matrix", "harvest:set_w_tilde_imaging", "harvest:set_linear_func_inversion_dicts",
-                   "client_uses_dataset_interface"]
+                   "client_uses_dataset_interface", "client_uses_other_image_same_tables"]
 STUBS = purity.STUBS
 ASSUMPTIONS = [
     "P1/P4 compare against the mapping formalism WITHOUT preloads, built from raw bytes in the isolated reference executor; tolerances relative to the reference max-abs: 1e-10 for data vector / curvature / regularization matrices, "
